@@ -627,7 +627,11 @@ theorem stepT_fi {s : State} {i : Nat} {t : Thread} (hd : Deb s) (hc : CH s) (hw
     split
     · exact c.setPc_close _ (fun _ h => by cases h)
     · exact stopFinish_fi c hk
-  · next w hb => exact stopFinish_fi c (notDeb (by rw [hb]; rfl))
+  · next w rest hb =>
+    have hk := notDeb (by rw [hb]; rfl)
+    split
+    · exact c.setPc_close _ (fun _ h => by cases h)
+    · exact stopFinish_fi c hk
   · -- wWait
     next hb =>
     split
